@@ -9,5 +9,8 @@ INVARIANT CmpRefines
 INVARIANT RemRefines
 INVARIANT MulRefines
 INVARIANT RoundRefines
+INVARIANT DivRefines
+INVARIANT QuantizeRefines
+INVARIANT RatioRefines
 INVARIANT Tight
 CHECK_DEADLOCK FALSE
